@@ -12,6 +12,7 @@ import (
 	"fmt"
 	"io"
 	"os"
+	"runtime"
 	"sort"
 	"strconv"
 	"strings"
@@ -60,6 +61,12 @@ type AnnoStructs struct {
 }
 
 func Variants(msaIn io.Reader, stdin bool, refID string, annoIn io.Reader, annoSuffix string, out io.Writer, start int, end int, aggregate bool, threshold float64, appendSNP bool, threads int) error {
+
+	// as in closest: no usable thread count means "as many as there are processors" (a pool of no workers would
+	// leave every record in its channel)
+	if threads < 1 {
+		threads = runtime.NumCPU()
+	}
 
 	var err error
 
